@@ -840,6 +840,7 @@ pub fn main_c01(tier_name: &str, seed: u64) -> i32 {
         }
         for _ in 0..(tr.n_gen / 25).max(4) {
             calls.extend(gen::modifier_family(&mut g));
+            calls.push(gen::tone_alias_call(&mut g));
         }
         let sampled: Vec<usize> = (n_sweep..calls.len()).collect();
         let all: Vec<usize> = (0..calls.len()).collect();
